@@ -304,13 +304,13 @@ func specCanClose(in, out byte, sameEvent, samePTS, lastSegment, subSegs, lastSu
 //@ transparent scte35.PTS scte35.HasPTS timeSignal.HasPTS spliceNull.HasPTS spliceInsert.HasPTS
 
 //@ func (d *segmentationDescriptor) IsOut() bool
-//@   props C19
+//@   props C19 C05
 //@   requires d != nil
 //@   ensures result == specIsOut(byte(d.typeID))
 //@   modifies nothing
 
 //@ func (d *segmentationDescriptor) IsIn() bool
-//@   props C19
+//@   props C19 C05
 //@   requires d != nil
 //@   ensures result == specIsIn(byte(d.typeID))
 //@   modifies nothing
